@@ -16,6 +16,7 @@ import Postcard.Model.Fixint
 import Postcard.Model.DeFlavor
 import Postcard.Model.SexpCT
 import Postcard.Spec.Conforms
+import Postcard.Model.SexpRTy
 import Postcard.Model.SexpJson
 import Postcard.Model.Dyn
 import Postcard.Spec.Cobs
@@ -365,6 +366,11 @@ def handle (line : String) : String :=
       -- a concrete Rust value decoded by the REAL Deserialize impl and re-encoded: must be enc of its call tree
       match ctOfSexp c with
       | some c => "ok " ++ hexOfBytes (enc c.erase)
+      | none => "bad-op"
+    | "schemaof", [r] =>
+      -- the model's impl tables / derive model: <T as Schema>::SCHEMA for the described Rust type
+      match rtyOfSexp r with
+      | some r => "ok " ++ schemaToStr (schemaOf true r)
       | none => "bad-op"
     | "conf", [c, sx, .atom h] =>
       -- C14 on REAL data: the recorded call tree of a real value, the real T::SCHEMA, the real bytes
